@@ -110,11 +110,11 @@ func (r *Result) Violate(v Violation) {
 	r.mu.Unlock()
 }
 
-// NumViolations returns the number recorded so far.
+// NumViolations returns the number of violations observed so far (all of them, not only those kept in detail).
 func (r *Result) NumViolations() int {
 	r.mu.Lock()
 	defer r.mu.Unlock()
-	return len(r.Violations)
+	return int(r.Counters["violations_total"])
 }
 
 // Inconcl records an undecided case.
